@@ -10,6 +10,7 @@ package verifsched
 
 import (
 	"fmt"
+	"os"
 	"hash/fnv"
 	"reflect"
 	"runtime"
@@ -17,6 +18,7 @@ import (
 	"strconv"
 	"strings"
 	"sync"
+	"sync/atomic"
 )
 
 type Kind uint8
@@ -93,6 +95,21 @@ type Exec struct {
 	points   int
 	exitWG   sync.WaitGroup
 	atEnd    []func()
+	owner    atomic.Int64 // id+1 of the thread holding the baton; tripwire for the single-runner invariant
+	logmu    sync.Mutex
+	elog     []string
+	seq      uint64
+}
+
+var prevExec *Exec
+
+func (e *Exec) logf(f string, a ...any) {
+	e.logmu.Lock()
+	e.elog = append(e.elog, fmt.Sprintf("g%d ", goid())+fmt.Sprintf(f, a...))
+	if len(e.elog) > 400 {
+		e.elog = e.elog[200:]
+	}
+	e.logmu.Unlock()
 }
 
 var cur *Exec // the active execution; nil = pass-through
@@ -140,8 +157,22 @@ func hashStr(s string) uint64 {
 
 // point is called by the running managed goroutine before a synchronisation operation.
 // It returns when this goroutine has been chosen and the operation is enabled.
+func (e *Exec) fatal(msg string) {
+	buf := make([]byte, 1<<17)
+	n := runtime.Stack(buf, true)
+	fmt.Fprintf(os.Stderr, "verifsched internal: %s\n%s\n", msg, buf[:n])
+	fmt.Fprintf(os.Stderr, "---- event log of current exec (epoch %d)\n%s\n", e.seq, strings.Join(e.elog, "\n"))
+	if prevExec != nil {
+		fmt.Fprintf(os.Stderr, "---- event log of previous exec (epoch %d)\n%s\n", prevExec.seq, strings.Join(prevExec.elog, "\n"))
+	}
+	os.Exit(3)
+}
+
 func (e *Exec) point(k Kind, obj int, enabled func() bool) {
 	t := e.cur
+	if o := e.owner.Load(); o != int64(t.id)+1 {
+		e.fatal(fmt.Sprintf("point(): owner=%d but cur=%d aborting=%v", o-1, t.id, e.aborting))
+	}
 	if g := goid(); g != t.gid {
 		panic(fmt.Sprintf("verifsched: scheduling point reached from goroutine %d which is not the running managed goroutine (thread %d, goroutine %d): an uninstrumented goroutine is calling instrumented code", g, t.id, t.gid))
 	}
@@ -294,10 +325,20 @@ func (e *Exec) schedule(caller *thread) {
 	}
 	e.cur = chosen
 	chosen.started = true
+	if !e.owner.CompareAndSwap(int64(caller.id)+1, int64(chosen.id)+1) {
+		e.fatal(fmt.Sprintf("schedule(): caller %d hands over but owner=%d", caller.id, e.owner.Load()-1))
+	}
+	// everything the caller needs must be read BEFORE the baton is handed over: once the
+	// chosen thread runs, shared state (including caller.done, set by abortAll) belongs to it
+	park := caller != nil && !caller.done
 	chosen.resume <- true
-	if caller != nil && !caller.done {
-		if ok := <-caller.resume; !ok {
+	if park {
+		ok := <-caller.resume
+		if !ok {
 			panic(abortSentinel{})
+		}
+		if o := e.owner.Load(); o != int64(caller.id)+1 {
+			e.fatal(fmt.Sprintf("schedule(): thread %d resumed but owner=%d", caller.id, o-1))
 		}
 	}
 }
@@ -382,16 +423,19 @@ func RunOne(o Options, body func()) Result {
 		e.numCPU = 4
 	}
 	epoch++
+	e.seq = epoch
 	cur = e
 	t0 := e.newThread(body)
 	e.cur = t0
 	t0.started = true
+	e.owner.Store(1)
 	t0.resume <- true
 	<-e.finished
 	e.exitWG.Wait() // every managed goroutine has fully unwound before the next execution starts
 	for _, f := range e.atEnd {
 		f()
 	}
+	prevExec = e
 	cur = nil
 	return Result{Rec: e.Rec, Trace: e.Trace, Deadlock: e.Deadlock, Panic: e.Panic, Pruned: e.Pruned, AliveAtReturn: e.AliveAtReturn, Threads: len(e.threads), Points: e.points}
 }
@@ -420,7 +464,10 @@ func SetPassThroughNumCPU(n int) { passNumCPU = n }
 // evaluating function value and arguments, as the go statement does).
 func Go(f func()) {
 	e := cur
-	if e == nil || e.aborting {
+	if e != nil && e.aborting {
+		e.fatal("Go() called while aborting")
+	}
+	if e == nil {
 		go f()
 		return
 	}
